@@ -18,6 +18,9 @@ use crate::simulation::ModelId;
 use crate::time::AtomicTimeReader;
 use task::Promise;
 
+#[cfg(nexosim_verif)]
+pub(crate) use task::verif_task;
+
 /// Unique identifier for executor instances.
 static NEXT_EXECUTOR_ID: AtomicUsize = AtomicUsize::new(0);
 
